@@ -298,6 +298,20 @@ class World:
                 self.by_id[id(o)].expired = True
             sub.ret = gone  # ground truth: orders that left the book at this clock advance
             self._emit(sub, n0)
+        elif k == "V":
+            # somebody looks at the book the way agents do (read-only views); nothing may change
+            sub = Sub("view", op)
+            self._snap(sub)
+            n0 = len(self.lg.got)
+            try:
+                m.get_buy_order_book()
+                m.get_sell_order_book()
+                m.get_best_buy_price()
+                m.get_best_sell_price()
+                m.get_mid_price()
+            except Exception as e:  # noqa
+                sub.exc = e
+            self._emit(sub, n0)
         elif k == "R":
             sub = Sub("flip", op)
             self._snap(sub)
